@@ -193,7 +193,7 @@ def known_finding_run(ctx):
             "tables": [{"nrows": 4, "cols": [{"name": "x", "kind": "mixed", "pattern": "imax_neg", "card": "full", "present": "all", "density": 0, "expect_type": "i64"}]}]}
     n_before = len(ctx.violations)
     units, n_ok = run_cases(ctx, [case], "kf_imax")
-    if n_ok == 1 and len(ctx.violations) == n_before and "F19" not in ctx.kf_seen:
+    if n_ok == 1 and len(ctx.violations) == n_before and "F28" not in ctx.kf_seen:
         log("[C08] note: the recorded finding (u64 == i64::MAX with a negative value) did not reproduce")
         ctx.cov["kf_imax_reproduced"] = False
     else:
